@@ -18,6 +18,7 @@ Inductive err : Set :=
 | EUEOF           (* io.ErrUnexpectedEOF *)
 | ENonCanon       (* ReadVarInt: non-canonical varint *)
 | EStrTooLong     (* ReadVarString: count above maxMessagePayload *)
+| EBytesTooLong   (* ReadVarBytes: count above the caller's maxAllowed *)
 | ETooMany        (* per-message count limit exceeded ("too many ...") *)
 | EHasTx          (* MsgHeaders: header followed by a non-zero tx count *)
 | EUALong         (* MsgVersion: user agent longer than MaxUserAgentLen *)
@@ -124,6 +125,11 @@ Definition enc_varstring (s : bytes) : bytes := enc_varint (N.of_nat (length s))
 Definition dec_varstring (mmp : N) (bs : bytes) : res (bytes * bytes) :=
   '(c, r) <- dec_varint bs ;;
   if mmp <? c then Err EStrTooLong else read_N c r.
+
+(* ReadVarBytes: count <= maxAllowed is checked before make([]byte, count) *)
+Definition dec_varbytes (max : N) (bs : bytes) : res (bytes * bytes) :=
+  '(c, r) <- dec_varint bs ;;
+  if max <? c then Err EBytesTooLong else read_N c r.
 
 (* ---------- lists of elements ---------- *)
 
